@@ -138,6 +138,7 @@ package commitlog
 //@   ensures [only-deleted] forall s *segment :: ghost.removed[s] ==> old(ghost.removed[s]) || (exists j int :: 0 <= j && j < len(segments)-len(out) && old(segments[j]) == s) || err != nil
 //@   ensures [only-expired] err == nil ==> (forall j int :: 0 <= j && j < len(segments)-len(out) ==> old(segments[j].lastWriteTime) < ghost.ttl)
 //@   ensures [stops-at-live] err == nil && len(out) >= 2 ==> old(segments[len(segments)-len(out)].lastWriteTime) >= ghost.ttl
+//@   ensures [oldest-survivor-is-live] err == nil && len(out) >= 2 ==> out[0].lastWriteTime >= ghost.ttl
 //@   ghost after call dynamic: ghost.ttl := ret0
 //@   loop 1 invariant -1 <= rangeindex && rangeindex < len(segments)
 //@   loop 1 invariant forall j int :: 0 <= j && j < len(segments) ==> segments[j] == old(segments[j])
@@ -152,10 +153,35 @@ package commitlog
 
 // Clean (retention): age, then messages, then bytes. The survivors are a suffix of the input that
 // keeps the newest segment, and exactly the dropped prefix was handed to Delete().
+//@ func (*deleteCleaner).noRetentionLimits serves C09
+//@   requires c != nil
+//@   modifies nothing
+//@   ensures result == (c.Retention.Bytes == 0 && c.Retention.Messages == 0 && c.Retention.Age == 0)
+// ghost.stage*: the segment list the passes have produced so far (array, offset, length of the slice)
+//@ ghost var stageArr int
+//@ ghost var stageOff int
+//@ ghost var stageLen int
 //@ func (*deleteCleaner).Clean serves C09
 //@   returns (out, err)
 //@   requires c != nil && segsOK(segments)
 //@   safety
+//@   ghost at entry: ghost.stageArr := arrOf(segments)
+//@   ghost at entry: ghost.stageOff := offOf(segments)
+//@   ghost at entry: ghost.stageLen := len(segments)
+//@   call applyAgeLimit requires [each-pass-works-on-what-the-previous-left] arrOf(arg1) == ghost.stageArr && offOf(arg1) == ghost.stageOff && len(arg1) == ghost.stageLen
+//@   call applyMessagesLimit requires [each-pass-works-on-what-the-previous-left] arrOf(arg1) == ghost.stageArr && offOf(arg1) == ghost.stageOff && len(arg1) == ghost.stageLen
+//@   call applyBytesLimit requires [each-pass-works-on-what-the-previous-left] arrOf(arg1) == ghost.stageArr && offOf(arg1) == ghost.stageOff && len(arg1) == ghost.stageLen
+//@   ghost after call applyAgeLimit: ghost.stageArr := arrOf(ret0)
+//@   ghost after call applyAgeLimit: ghost.stageOff := offOf(ret0)
+//@   ghost after call applyAgeLimit: ghost.stageLen := len(ret0)
+//@   ghost after call applyMessagesLimit: ghost.stageArr := arrOf(ret0)
+//@   ghost after call applyMessagesLimit: ghost.stageOff := offOf(ret0)
+//@   ghost after call applyMessagesLimit: ghost.stageLen := len(ret0)
+//@   ghost after call applyBytesLimit: ghost.stageArr := arrOf(ret0)
+//@   ghost after call applyBytesLimit: ghost.stageOff := offOf(ret0)
+//@   ghost after call applyBytesLimit: ghost.stageLen := len(ret0)
+//@   ensures [result-of-the-last-pass] err == nil ==> arrOf(out) == ghost.stageArr && offOf(out) == ghost.stageOff && len(out) == ghost.stageLen
+//@   ensures [age-limit-holds-afterwards] err == nil && old(c.Retention.Age) > 0 && len(out) >= 2 ==> out[0].lastWriteTime >= ghost.ttl
 //@   ensures [no-limits] c.Retention.Bytes == 0 && c.Retention.Messages == 0 && c.Retention.Age == 0 ==> err == nil && out == segments && ghost.removed == old(ghost.removed)
 //@   ensures [suffix] err == nil ==> len(out) <= len(segments) && (len(segments) >= 1 ==> len(out) >= 1) && (forall j int :: 0 <= j && j < len(out) ==> out[j] == old(segments[len(segments)-len(out)+j]))
 //@   ensures [only-deleted] err == nil ==> (forall s *segment :: ghost.removed[s] ==> old(ghost.removed[s]) || (exists j int :: 0 <= j && j < len(segments)-len(out) && old(segments[j]) == s))
